@@ -113,7 +113,7 @@ Apply(S, a) ==
                           colls |-> IF a.fk = "multi" THEN Colls ELSE IF a.fk = "bucket" THEN {"c0"} ELSE {a.c},
                           kind |-> a.fk, done |-> FALSE]]
       [] a.kind = "PutDDoc" ->     \* a design document on collection c1
-           IF hd.st # "open" \/ hd.stale THEN S ELSE [S EXCEPT !.store[hd.n][hd.u].dd = TRUE]
+           IF hd.st # "open" \/ (hd.stale /\ ~a.force) THEN S ELSE [S EXCEPT !.store[hd.n][hd.u].dd = TRUE]
       [] a.kind = "StopFeed" ->
            IF S.fd[a.f].st = "running" THEN [S EXCEPT !.fd[a.f].st = "ended", !.fd[a.f].done = TRUE] ELSE S
       [] OTHER -> S
